@@ -1105,6 +1105,16 @@ Section GovProofs.
     simpl in H. rewrite H. exists 6. split; [discriminate | reflexivity].
   Qed.
 
+  Theorem refusals_withdraw cfg (st : state) c i :
+    withdraw_must_fail st c i = true ->
+    exists rc, rc <> 0 /\ step E_eqb sem e_default cfg st (OWithdraw c i) = (st, rc).
+  Proof.
+    unfold withdraw_must_fail, step, run, withdraw. intro H.
+    destruct (get_prop st i) as [p|]; [|exists 1; split; [discriminate | reflexivity]].
+    destruct (negb (h_from (p_hdr p) =? c)); [exists 1; split; [discriminate | reflexivity]|].
+    simpl in H. rewrite H. exists 8. split; [discriminate | reflexivity].
+  Qed.
+
   (** every failed transaction leaves the whole state as it was *)
   Theorem failed_tx_frame cfg (st : state) o rc st' :
     step E_eqb sem e_default cfg st o = (st', rc) -> rc <> 0 -> st' = st.
@@ -1325,9 +1335,14 @@ Section GovProofs.
     - unfold cl_refusal. apply andb_true_iff. split.
       + destruct (n1 =? 0) eqn:Erc; [reflexivity|]. cbn [orb]. apply N.eqb_neq in Erc.
         rewrite (failed_tx_frame cfg_fixed st o n1 s1 Er Erc). apply obs_eqb_refl.
-      + destruct o; try reflexivity. destruct (vote_must_fail st c i b) eqn:Ev; [|reflexivity]. cbn [negb orb].
-        destruct (refusals_thm cfg_fixed st c i b Ev) as [rc [Hne Hst]]. rewrite Hst in Er. inversion Er; subst.
-        apply negb_true_iff. apply N.eqb_neq. exact Hne.
+      + destruct o; try reflexivity.
+        * destruct (vote_must_fail st c i b) eqn:Ev; [|reflexivity]. cbn [negb orb].
+          destruct (refusals_thm cfg_fixed st c i b Ev) as [rc [Hne Hst]]. rewrite Hst in Er. inversion Er; subst.
+          apply negb_true_iff. apply N.eqb_neq. exact Hne.
+        * destruct (withdraw_must_fail st c i) eqn:Ev; [|reflexivity]. cbn [negb orb].
+          destruct (refusals_withdraw cfg_fixed st c i Ev) as [rc [Hne Hst]]. rewrite Hst in Er. inversion Er; subst.
+          apply negb_true_iff. apply N.eqb_neq. exact Hne.
+        * unfold step, run in Er. inversion Er; subst. reflexivity.
   Qed.
 
   Lemma reach_run_ops (st : state) os : reach st -> reach (run_ops st os).
